@@ -1,11 +1,14 @@
 (** Proofs about the reference skeletons: every reference of every statement form goes
-    through a qualifying call (except the two exhibited forms), hence is written without a
+    through a qualifying call, hence is written without a
     schema component under qualifier [""] and with exactly [q] under qualifier [q]. *)
 From Coq Require Import List NArith Bool.
 From Atlas Require Import Base.Bytes Qual.Builder Qual.RefSkeleton.
 Import ListNotations.
 Open Scope N_scope.
 
+(* a reference to an existing object, as opposed to the new name of a RENAME TO *)
+Definition reference (r : ref) : Prop := match r with RNew _ => False | _ => True end.
+(* not written through bare Ident *)
 Definition qualifying (r : ref) : Prop := match r with RBare _ => False | _ => True end.
 
 (* the names of a reference, without any schema component *)
@@ -16,22 +19,24 @@ Definition ref_names (r : ref) : list bytes :=
   | RSchemaRes _ n => [n]
   | RType _ n => [n]
   | RPrefixed _ n => [n]
+  | RPrefixedCol _ t c => [t; c]
   | RBare n => [n]
+  | RNew n => [n]
   end.
 Definition ref_own (r : ref) : option bytes :=
   match r with
   | RTable t | RTableRes t _ => o_schema t
   | RSchemaRes s _ => s
-  | RType ns _ | RPrefixed ns _ => ns
-  | RBare _ => None
+  | RType ns _ | RPrefixed ns _ | RPrefixedCol ns _ _ => ns
+  | RBare _ | RNew _ => None
   end.
 
-Lemma ref_chain_cases r : qualifying r ->
+Lemma ref_chain_cases r : qualifying r -> reference r ->
   ref_chain (Some []) r = ref_names r /\
   (forall q, q <> [] -> ref_chain (Some q) r = q :: ref_names r) /\
   ref_chain None r = opt_name (ref_own r) ++ ref_names r.
 Proof.
-  intros H. destruct r; try contradiction; repeat split; try reflexivity;
+  intros H R. destruct r; try contradiction; repeat split; try reflexivity;
     intros q Hq; unfold ref_chain, chain_of, qual_prefix; destruct q; try congruence; reflexivity.
 Qed.
 
@@ -62,20 +67,17 @@ Qed.
 
 Ltac ok1 := unfold stmt_ok; simpl; repeat constructor.
 
-Lemma pg_drop_index_ref_ok t i : o_schema t <> None -> qualifying (pg_drop_index_ref t i).
-Proof. unfold pg_drop_index_ref. destruct (o_schema t); [intros _; exact I|congruence]. Qed.
+Lemma pg_add_index_ok t i : stmts_ok (pg_add_index t i).
+Proof. repeat constructor. Qed.
+Lemma pg_drop_index_ok t i : stmts_ok (pg_drop_index t i).
+Proof. repeat constructor. Qed.
 
-Lemma pg_add_index_ok t i : o_schema t <> None -> stmts_ok (pg_add_index t i).
-Proof. intros H. repeat constructor; simpl. apply pg_drop_index_ref_ok, H. Qed.
-Lemma pg_drop_index_ok t i : o_schema t <> None -> stmts_ok (pg_drop_index t i).
-Proof. intros H. repeat constructor; simpl. apply pg_drop_index_ref_ok, H. Qed.
-
-Lemma add_table_ok pg t : o_schema (t_obj t) <> None -> stmts_ok (add_table pg t).
+Lemma add_table_ok pg t : stmts_ok (add_table pg t).
 Proof.
-  intros H. unfold add_table. constructor; [apply create_table_refs_ok|]. constructor; [ok1|].
+  unfold add_table. constructor; [apply create_table_refs_ok|]. constructor; [ok1|].
   destruct pg; [|constructor].
   repeat apply stmts_ok_app.
-  - apply stmts_ok_flat_map. intros i. destruct (i_uconst i); [constructor|apply pg_add_index_ok, H].
+  - apply stmts_ok_flat_map. intros i. destruct (i_uconst i); [constructor|apply pg_add_index_ok].
   - destruct (t_comment t); [ok1|constructor].
   - apply stmts_ok_flat_map. intros c. destruct (c_comment c); [ok1|constructor].
   - apply stmts_ok_flat_map. intros i. destruct (i_comment i); [ok1|constructor].
@@ -102,86 +104,84 @@ Proof.
   - constructor; [apply create_table_refs_ok|constructor].
 Qed.
 
+Lemma enum_ref_ok (e : option (option bytes * bytes)) :
+  Forall qualifying (match e with Some (ns, n) => [RType ns n] | None => [] end).
+Proof. destruct e as [[ns n]|]; repeat constructor. Qed.
+
+Lemma alter_fwd_ok pg s : Forall qualifying (alter_fwd pg s).
+Proof.
+  destruct s; simpl; try constructor; try apply col_refs_ok; try (repeat constructor; fail).
+  destruct (pg && ty && negb to_serial); [apply enum_ref_ok|constructor].
+Qed.
+Lemma alter_bwd_ok pg s : Forall qualifying (alter_bwd pg s).
+Proof.
+  destruct s; simpl; try constructor; try apply col_refs_ok; try (repeat constructor; fail).
+  destruct (pg && ty && negb to_serial); [apply enum_ref_ok|constructor].
+Qed.
+
 Lemma alter_stmts_ok pg head l : qualifying head -> stmts_ok (alter_stmts pg head l).
 Proof.
   intros H. unfold alter_stmts. destruct l as [|x l]; [constructor|].
-  assert (F : forall l', Forall qualifying (flat_map (alter_fwd pg) l')).
-  { intros l'. apply refs_flat_map. intros s. destruct s; simpl; try constructor; try apply col_refs_ok; repeat constructor. }
-  assert (B : forall l', Forall qualifying (flat_map (alter_bwd pg) l')).
-  { intros l'. apply refs_flat_map. intros s. destruct s; simpl; try constructor; try apply col_refs_ok; repeat constructor. }
   constructor.
-  - unfold stmt_ok. cbn [s_refs cmd]. constructor; [exact H|apply (F (x :: l))].
+  - unfold stmt_ok. cbn [s_refs cmd]. constructor; [exact H|apply refs_flat_map, alter_fwd_ok].
   - destruct (existsb irreversible (x :: l)); [constructor|].
-    constructor; [|constructor]. unfold stmt_ok. cbn [s_refs]. constructor; [exact H|apply B].
+    constructor; [|constructor]. unfold stmt_ok. cbn [s_refs]. constructor; [exact H|apply refs_flat_map, alter_bwd_ok].
 Qed.
 
-Lemma pg_modify_table_ok t subs : o_schema (t_obj t) <> None -> stmts_ok (pg_modify_table t subs).
+Lemma pg_modify_table_ok t subs : stmts_ok (pg_modify_table t subs).
 Proof.
-  intros H. unfold pg_modify_table. repeat apply stmts_ok_app.
+  unfold pg_modify_table. repeat apply stmts_ok_app.
   - apply stmts_ok_flat_map. intros s. destruct s; try constructor.
-    destruct (i_uconst i); [constructor|apply pg_drop_index_ok, H].
+    + destruct (i_uconst i); [constructor|apply pg_drop_index_ok].
+    + destruct parts; [|constructor]. destruct (i_uconst from); [constructor|apply pg_drop_index_ok].
+  - apply stmts_ok_flat_map. intros s. destruct s; try constructor.
+    destruct ty; [|constructor]. destruct to_serial; [|constructor]. repeat constructor.
   - apply alter_stmts_ok. exact I.
   - apply stmts_ok_flat_map. intros s. destruct s; try constructor.
-    destruct (i_uconst i); [constructor|apply pg_add_index_ok, H].
+    + destruct (i_uconst i); [constructor|apply pg_add_index_ok].
+    + destruct parts; [|constructor]. destruct (i_uconst to); [constructor|apply pg_add_index_ok].
   - apply stmts_ok_flat_map. intros s. destruct s; try constructor; try ok1.
     + destruct (c_comment c); [ok1|constructor].
     + destruct (i_comment i); [ok1|constructor].
+    + destruct comment; [ok1|constructor].
+    + destruct comment; [ok1|constructor].
 Qed.
 
-(* the two statement forms that do NOT go through a qualifying call are excluded here
-   and exhibited below *)
-Definition change_ok (c : change) : Prop :=
-  match c with
-  | RenameObject _ _ => False
-  | AddTable t | ModifyTable t _ => o_schema (t_obj t) <> None
-  | _ => True
-  end.
+Lemma mysql_modify_table_ok t subs : stmts_ok (mysql_modify_table t subs).
+Proof. unfold mysql_modify_table. apply stmts_ok_app; apply alter_stmts_ok; exact I. Qed.
 
 Lemma repeat_stmt_ok n s : stmt_ok s -> stmts_ok (repeat_stmt n s).
 Proof. intros H. induction n; simpl; constructor; auto. Qed.
 
-Lemma plan_change_ok pg c : change_ok c -> stmts_ok (plan_change pg c).
+Lemma plan_change_ok pg c : stmts_ok (plan_change pg c).
 Proof.
-  destruct c; simpl; intros H; try contradiction.
-  - apply add_table_ok, H.
+  destruct c; simpl.
+  - apply add_table_ok.
   - apply drop_table_ok.
   - unfold rename_table. repeat constructor.
-  - destruct pg; [apply pg_modify_table_ok, H|]. unfold mysql_modify_table. apply alter_stmts_ok. exact I.
+  - destruct pg; [apply pg_modify_table_ok|apply mysql_modify_table_ok].
   - repeat constructor.
   - repeat constructor.
   - apply repeat_stmt_ok. ok1.
+  - repeat constructor.
 Qed.
 
-Theorem skeleton_refs_qualifying pg cs : Forall change_ok cs -> stmts_ok (plan_skel pg cs).
+(** no statement form writes a reference through bare Ident *)
+Theorem skeleton_refs_qualifying pg cs : stmts_ok (plan_skel pg cs).
 Proof.
-  intros H. unfold plan_skel. induction H as [|c cs Hc _ IH]; simpl; [constructor|].
-  apply stmts_ok_app; [apply plan_change_ok, Hc|exact IH].
+  unfold plan_skel. induction cs as [|c cs IH]; simpl; [constructor|].
+  apply stmts_ok_app; [apply plan_change_ok|exact IH].
 Qed.
 
-Theorem skeleton_chains pg cs : Forall change_ok cs ->
-  forall s r, In s (plan_skel pg cs) -> In r (s_refs s) ->
+Theorem skeleton_chains pg cs :
+  forall s r, In s (plan_skel pg cs) -> In r (s_refs s) -> reference r ->
   ref_chain (Some []) r = ref_names r /\
   (forall q, q <> [] -> ref_chain (Some q) r = q :: ref_names r) /\
   ref_chain None r = opt_name (ref_own r) ++ ref_names r.
 Proof.
-  intros H s r Hs Hr. apply ref_chain_cases.
-  pose proof (skeleton_refs_qualifying pg cs H) as K.
+  intros s r Hs Hr R. apply ref_chain_cases; [|exact R].
+  pose proof (skeleton_refs_qualifying pg cs) as K.
   unfold stmts_ok in K. rewrite Forall_forall in K. specialize (K s Hs).
   unfold stmt_ok in K. rewrite Forall_forall in K. exact (K r Hr).
 Qed.
 
-(** the excluded forms do write an unqualified reference under a custom qualifier *)
-Definition e1 : bytes := [101; 49].  Definition e2 : bytes := [101; 50].
-Definition qq : bytes := [113].      Definition tt : bytes := [116].   Definition ii : bytes := [105].
-
-Theorem skeleton_unqualified_forms :
-  (exists cs s r, In s (plan_skel true cs) /\ In r (s_refs s) /\ ref_chain (Some qq) r = [e1]) /\
-  (exists cs s r, In s (plan_skel true cs) /\ In r (s_refs s) /\ ref_chain (Some qq) r = [ii]).
-Proof.
-  split.
-  - exists [RenameObject e1 e2], (cmd h_alter_type [RBare e1; RBare e2]), (RBare e1).
-    split; [left; reflexivity|]. split; [left; reflexivity|reflexivity].
-  - exists [AddTable (mkTab (mkObj None tt) [] [mkIdx ii [] false false] [] false)],
-      (mkStmt true h_drop_index [RBare ii]), (RBare ii).
-    split; [right; right; right; left; reflexivity|]. split; [left; reflexivity|reflexivity].
-Qed.
